@@ -32,6 +32,7 @@ type ctxObj struct {
 	deadline bool // cancelled by its timer
 	doneCh   *chanV
 	cause    value
+	key, val value // context.WithValue (key == nil: none)
 }
 
 type mutexState struct{ locked bool }
@@ -462,7 +463,19 @@ func (i *Interp) ctxMethod(c *ctxObj, name string) value {
 			return iface{}
 		}}
 	case "Value":
-		return &nativeFn{"ctx.Value", func(i *Interp, _ *frame, _ []value) value { return iface{} }}
+		return &nativeFn{"ctx.Value", func(i *Interp, _ *frame, a []value) value {
+			if len(a) == 0 {
+				return iface{}
+			}
+			for x := c; x != nil; x = x.parent {
+				if x.key != nil {
+					if e := equals(x.key, a[len(a)-1]); e.Const && e.B {
+						return x.val
+					}
+				}
+			}
+			return iface{}
+		}}
 	case "Deadline":
 		return &nativeFn{"ctx.Deadline", func(i *Interp, _ *frame, _ []value) value {
 			fault("ctx.Deadline not modelled")
@@ -525,6 +538,12 @@ func init() {
 		"context.Background":      bg,
 		"context.WithCancel":      withCancel(false),
 		"context.WithCancelCause": withCancel(true),
+		// a value context: done exactly when its parent is (it is a child in the tree)
+		"context.WithValue": func(i *Interp, _ *frame, _ *ssa.Function, a []value) value {
+			c := newCtx(ctxOf(a[0]))
+			c.key, c.val = a[1], a[2]
+			return iface{t: ctxType, v: c}
+		},
 		"(*sync.Mutex).Lock": func(i *Interp, _ *frame, _ *ssa.Function, a []value) value {
 			p := a[0].(*value)
 			m := i.cs.mutexes[p]
